@@ -933,13 +933,19 @@ func (ea ExpressionAttribute) Write(w io.Writer, indent int) (err error) {
 	if err = writeIndent(w, indent, ea.Name, "={\n"); err != nil {
 		return err
 	}
-	verbatim := linesContinuingToken(strings.Join(lines, "\n"))
+	verbatim, comment := linesContinuingToken(strings.Join(lines, "\n"))
 	for i, line := range lines {
-		// A line that continues a raw string or a block comment is content, not layout: indenting it
-		// would change the value (and add to it on every pass).
+		// A line that continues a raw string is content, not layout: indenting it would change the
+		// value (and add to it on every pass).
 		lineIndent := indent
 		if verbatim[i] {
 			lineIndent = 0
+		}
+		// A line that continues a block comment is layout, but gofmt indents it relative to what it
+		// was given, so its leading white space is replaced rather than added to.
+		if comment[i] {
+			lineIndent = indent
+			line = "\t" + strings.TrimLeft(line, " \t")
 		}
 		if err = writeIndent(w, lineIndent, line, "\n"); err != nil {
 			return err
@@ -949,9 +955,11 @@ func (ea ExpressionAttribute) Write(w io.Writer, indent int) (err error) {
 }
 
 // linesContinuingToken reports, for each line of Go source, whether the line starts inside a token
-// that began on an earlier line (a raw string literal or a block comment).
-func linesContinuingToken(src string) map[int]bool {
-	inside := make(map[int]bool)
+// that began on an earlier line (a raw string literal or a block comment), and which of those lines
+// continue a block comment.
+func linesContinuingToken(src string) (inside, comment map[int]bool) {
+	inside = make(map[int]bool)
+	comment = make(map[int]bool)
 	var s scanner.Scanner
 	fset := token.NewFileSet()
 	file := fset.AddFile("", fset.Base(), len(src))
@@ -965,10 +973,13 @@ func linesContinuingToken(src string) map[int]bool {
 			first := fset.Position(pos).Line // 1-based line of the token's first line
 			for l := first; l < first+n; l++ {
 				inside[l] = true // 0-based index of the following lines
+				if tok == token.COMMENT {
+					comment[l] = true
+				}
 			}
 		}
 	}
-	return inside
+	return inside, comment
 }
 
 // <a { spread... } />
